@@ -192,4 +192,36 @@ prop("C20", "Parse is a pure function of the rule text", [
     ("parsed_trees_are_well_formed", "mk_tree_wf", "a tree records a text only if it is the tree of that text"),
     ("registration_keeps_registry_well_formed", "set_wf", "registering a well-formed tree keeps the registry well formed"),
     ("parse_terminates", "parse_pure_terminates", "and Parse terminates"),
+    ("parse_never_stores_into_its_input", "parse_src_writes_nil", "the audit regenerated from parser.go: no statement stores into the source bytes (or into slices of them)"),
 ], imports=PARSER_IMPORTS)
+
+CONC_IMPORTS = """From Coq Require Import List NArith ZArith Bool String Arith.
+From Dec Require Import Bytes AuditDefs Conc Alloc Db DbSpec.
+From Dec.generated Require Import Audit.
+From Dec.proofs Require Import ConcProofs AllocProofs DbProofs AuditFacts.
+Import ListNotations.
+"""
+
+prop("C10", "A registered decoder is safe to share between goroutines", [
+    ("goroutines_do_not_influence_each_other", "projection_solo", "N goroutines with private states (context, source, destination, trace) over shared immutable data: under every schedule each goroutine ends exactly where its own steps alone lead"),
+    ("schedule_irrelevant", "schedule_irrelevant", "two schedules giving a goroutine the same number of steps agree on it"),
+    ("decode_path_never_stores_through_the_tree", "decode_path_tree_writes_nil", "the audit regenerated from the working tree: no statement on the decode path stores through a node, Tree, arg or mod"),
+    ("pool_resets_before_sharing", "ctxpool_resets_before_pooling", "CtxPool.Put resets the context before handing it to the pool (regenerated from ctx_pool.go): a pooled context is never reset while another goroutine may already hold it"),
+], imports=CONC_IMPORTS)
+
+prop("C11", "Steady-state decoding performs no heap allocation", [
+    ("second_identical_run_allocates_nothing", "steady_state_no_growth", "buffers whose capacities survive Reset: serving the same trace of demands again allocates nothing"),
+    ("capacities_are_stable", "steady_state_caps_stable", "and leaves the capacities as they are"),
+    ("smaller_runs_allocate_nothing", "dominated_run_no_alloc", "any run whose demands are dominated allocates nothing either"),
+    ("capacities_cover_what_was_served", "caps_after_covers", "after a run the capacities cover every demand of that run"),
+    ("growing_demand_is_the_hazard", "growing_demand_allocates", "a demand that grows from run to run (a length Reset forgets to truncate) allocates: what the capacity snapshots look for"),
+], imports=CONC_IMPORTS)
+
+prop("C13", "Registering and decoding concurrently is race-free and linearizable", [
+    ("lock_discipline_of_db_go", "lock_discipline_holds", "the lock structure regenerated from db.go: every access to idxID / idxKey / idxHash / buf lies in a lock region, writes under the write lock, no locking method called while the lock is held, every path releases the lock"),
+    ("registry_fields_only_touched_in_db_go", "registry_fields_private", "and nothing outside db.go touches those fields"),
+    ("lock_invariant", "exec_inv", "a readers-writer lock around a shared value, writer operations non-atomic sequences of primitive writes, arbitrary schedules: the invariant of every reachable configuration"),
+    ("reader_sees_complete_states", "reader_sees_complete_states", "every read of a finished reader saw the value exactly as a prefix of the completed writer operations left it (never a half-installed one), and all its reads saw the same value"),
+    ("quiescent_value_is_serial", "quiescent_value_is_serial", "whenever no writer holds the lock the shared value is the result of the completed writer operations in lock-release order: writers are linearized at their critical sections"),
+    ("sequential_registry_is_correct", "db_refines_spec", "and the sequential registry refines the abstract one (C12)"),
+], imports=CONC_IMPORTS)
